@@ -340,9 +340,16 @@ class AuthHandler:
                 "An RSA key was specified, but no RSA pubkey algorithms are configured!"  # noqa
             )
         # Check for server-sig-algs if supported & sent
-        server_algo_str = u(
-            self.transport.server_extensions.get("server-sig-algs", b(""))
-        )
+        try:
+            server_algo_str = u(
+                self.transport.server_extensions.get("server-sig-algs", b(""))
+            )
+        except UnicodeDecodeError:
+            # algorithm names are ASCII; this also runs in the caller's
+            # thread (AuthOnlyHandler), so say it in SSH terms right here
+            raise SSHException(
+                "Server sent a server-sig-algs extension that is not UTF-8"
+            )
         pubkey_algo = None
         # Prefer to match against server-sig-algs
         if server_algo_str:
